@@ -303,6 +303,11 @@ where
                                     &mut shift_reduce,
                                     stidx,
                                 );
+                                // %nonassoc removes the action entirely, so this is no longer
+                                // a token with an action in this state.
+                                if actions[off] == StateTable::encode(Action::Error) {
+                                    state_actions.set(off, false);
+                                }
                             }
                             Action::Accept => panic!("Internal error"),
                             Action::Error => {
